@@ -74,7 +74,7 @@ class C05(Property):
             "dispatch correspondence: on frameworks that separate the semantics (no stable extension, stage != semi-stable, preferred != complete, above the hybrid threshold, random ones) every problem x "
             "every --encoding value (and `SE-PR` literal vs recased) is run with --external-sat-solver pointing to a recording script: the DIMACS text of every SAT call must equal byte for byte the text "
             "rendered by the composed Lean model (readProblem, dispatchSolver, dispatchEncoder, entryProg, Buffered.dimacs) replayed on the recorded replies, the printed answer must equal the model's, "
-            "and is judged by the oracle as well; non-trivial = invocation on a framework with an attack")
+            "and is judged by the oracle as well; the problem-string parser is compared with Cli.readProblem on the 21 problems and mutations of them (case, extra / missing / doubled hyphens, blanks, swapped parts, non-ASCII look-alikes) and on random concatenations of name pieces; non-trivial = invocation on a framework with an attack")
     assumptions = ["clap 2.34 and process exit plumbing are trusted; help requests exit 0 by design and are not errors",
                    "log lines (prefix `![`) are not answers; they appear on stdout only when logging is not off or on usage errors"]
 
@@ -297,6 +297,9 @@ class C05(Property):
         f2, c2 = self.dispatch_trace(ctx, rng)
         findings += f2
         cov.update(c2)
+        f3, c3 = self.problem_strings(ctx, rng)
+        findings += f3
+        cov.update(c3)
         self._cov = cov
         return findings, cov
 
@@ -419,6 +422,50 @@ class C05(Property):
                                         "cli/%s · printed answer differs from the model" % entry, {"cmd": shown, "stdout": out[:200]}))
         return findings, {"cli_dispatch_runs": len(jobs), "cli_dispatch_sat_calls_compared": ncalls, "cli_dispatch_combinations": len(combos),
                           "cli_dispatch_frameworks": len(fws)}
+
+    # ---- the problem-string parser against its Lean model (readProblem) ----
+    def problem_strings(self, ctx, rng):
+        runner, tier = ctx["runner"], ctx["tier"]
+        strs = set(PROBLEMS)
+        pieces = ["SE", "DC", "DS", "se", "Dc", "GR", "co", "PR", "St", "SST", "stg", "ID", "", "-", " ", "X", "S", "E", "ST-", "\u017f", "\u212a", "\u0130", "\u00e9", "\t", "EE"]
+        for p in PROBLEMS:
+            strs.add(p.lower())
+            strs.add(recase(rng, p))
+            for extra in ["-", "-x", " ", "-" + p.split("-")[1]]:
+                strs.add(p + extra)
+                strs.add(extra + p)
+            strs.add(p.replace("-", ""))
+            strs.add(p.replace("-", "--"))
+            strs.add(p.replace("-", "_"))
+            strs.add(p.replace("-", "\u2010"))
+            t, sm = p.split("-")
+            strs.add(sm + "-" + t)
+            k = rng.randrange(len(p))
+            strs.add(p[:k] + p[k + 1:])
+            strs.add(p[:k] + rng.choice(pieces) + p[k:])
+        for _ in range(200 if tier == "quick" else 5000):
+            strs.add("".join(rng.choice(pieces) for _ in range(rng.randint(1, 4))))
+            strs.add(rng.choice(pieces) + "-" + rng.choice(pieces))
+        strs = sorted(strs)
+        lines = ["read p%d fmt=prob hex=%s" % (i, x.encode("utf-8").hex()) for i, x in enumerate(strs)]
+        text, impl = runner.harness(lines)
+        _, model = runner.driver(text)
+        findings = []
+        nacc = 0
+        for i, x in enumerate(strs):
+            ir = [l for l in impl.get("p%d" % i, []) if l.startswith("P ") or l.startswith("panic")]
+            mr = [l for l in model.get("p%d" % i, []) if l.startswith("P ")]
+            if ir and ir[0].startswith("P ok"):
+                nacc += 1
+                if x.upper() not in PROBLEMS:
+                    findings.append(Finding("input", None, "the problem string %r is accepted (%s) although it is none of the 21 problems" % (x, ir[0]),
+                                            "cli · unlisted problem string accepted", {"problem": x}))
+            elif x.upper() in PROBLEMS and x.isascii():
+                findings.append(Finding("input", None, "the listed problem %r is rejected" % x, "cli · listed problem rejected", {"problem": x}))
+            if ir != mr:
+                findings.append(Finding("model", None, "read_problem_string and its Lean model (Cli.readProblem) differ on %r: impl %s model %s" % (x, ir, mr),
+                                        "cli · problem parser differs from the model", {"problem": x, "theorem": "correspondence read family fmt=prob (C05.problem_parse_iff is about Cli.readProblem)"}))
+        return findings, {"problem_strings_compared": len(strs), "problem_strings_accepted": nacc}
 
     def stats(self, cases, impl, model):
         return getattr(self, "_cov", {})
